@@ -16,6 +16,7 @@ from C10 import canon as _c10canon
 
 def gen(rng, tier):
     yield from gen_recs(rng, tier)
+    yield from gen_two(rng, tier)
     n = 250 if tier == 'quick' else 6000
     nid = 0
     for _ in range(n):
@@ -74,6 +75,24 @@ def gen_recs(rng, tier):
         nruns = 1 if cs == 'default' or (isinstance(cs, int) and cs >= L) else (L if cs in (0, 1) else -(-L // cs))
         yield Case(sx.dump(['xsortrec', t, cs, rng.choice([1, 2, 'default']), rng.choice(['none', 1, 4, 16]), ['recs'] + items]),
                    nruns >= 2 and len(keys) < L, 'rec-' + t)
+
+
+def gen_two(rng, tier):
+    """two sorts on one sorter object, the two result iterators consumed alternately"""
+    n = 40 if tier == 'quick' else 1200
+    nid = 0
+    for _ in range(n):
+        def items(L):
+            nonlocal nid
+            out = []
+            for _i in range(L):
+                nid += 1
+                out.append([rng.randint(0, 5), 700000 + nid, rng.choice([0, 0, 3, 40])])
+            return out
+        la, lb = rng.choice([0, 1, 4, 9, 17]), rng.choice([1, 3, 8, 20])
+        cs = rng.choice([1, 2, 3, 5, 'default'])
+        yield Case(sx.dump(['xsort2', cs, rng.choice([1, 2]), rng.choice(['none', 1, 4]), rng.choice([0, 1]), ['items'] + items(la), ['items'] + items(lb)]),
+                   cs != 'default' and la > 1 and lb > 1, 'two-sorts')
 
 
 _gen_kid = None
